@@ -191,6 +191,7 @@ def families(tier="quick"):
 
     def add(key, fn, functions):
         f = Family(f"{PID}/{key}", fn, defd=False, functions=functions)
+        f.abstract = True
         fams.append(f)
 
     for d in (2, 3, 4):
